@@ -114,6 +114,7 @@ def is_mp(o):
 def label(o):
     """Failure-class label of an object spec (catalogue name / expression skeleton / measurement kind)."""
     if o["k"] == "cat":
+        cat.names()  # registers wrapper / template recipes (replays call this without the driver having run)
         g = o["g"]
         n = g["op"]
         return f"{n}[{g['v']}]" if cat.category(n) == "symbolic" and g.get("v") else n
